@@ -63,10 +63,13 @@ Astral(font) == IF font = 1 THEN 119860 ELSE IF font = 2 THEN 127462 ELSE 241   
 CP(font, i) == IF Chars[i] = -1 THEN Astral(font) ELSE Chars[i]
 CoreChars == 1..9 \ {8}          \* A V f i a space T 1 : kerning pair AV, ligature / alternates fi, repeated glyphs
 Modes == {"H", "VU", "VN"}       \* horizontal | vertical-rl upright (vertical glyph run) | vertical-rl natural (rotated run)
+\* "H2": the same horizontal text line broken into two lines in the middle (the second line's spans have y # 0)
 Text(s, m) == [s |-> s, mode |-> m, raw |-> FALSE]      \* s: indices into Chars
 RawText(cps, m) == [s |-> cps, mode |-> m, raw |-> TRUE]  \* s: code points
 \* variant: 0 FontNormal, 1 FontSubscript, 2 FontSuperscript (family.Face(size, colour, style, variant))
-DocV(f, sub, z, reuse, v, ts) == [font |-> f, subset |-> sub, compress |-> z, reuse |-> reuse, variant |-> v, texts |-> ts]
+\* style: 0 regular, 1 italic requested from the family that has only the regular font (=> faux italic: sheared glyphs)
+DocS(f, sub, z, reuse, v, st, ts) == [font |-> f, subset |-> sub, compress |-> z, reuse |-> reuse, variant |-> v, style |-> st, texts |-> ts]
+DocV(f, sub, z, reuse, v, ts) == DocS(f, sub, z, reuse, v, 0, ts)
 Doc(f, sub, z, reuse, ts) == DocV(f, sub, z, reuse, 0, ts)
 NoDoc == Doc(0, FALSE, FALSE, 0, <<>>)
 Tail6 == <<1, 2, 3, 4, 6, 9>>    \* "AVfi 1": drawn as the second text of every short document (code stability across draws)
@@ -90,6 +93,9 @@ WRunStrings(f) ==
   \cup (IF Len(DwSeq(f)) >= 4 /\ Len(EqSeq(f)) >= 1      \* a run of DW-advance characters itself (its W entry may be omitted)
         THEN UNION {{r \o <<EqSeq(f)[1]>>, <<EqSeq(f)[1]>> \o r \o <<65>>} : r \in Windows(DwSeq(f), 4..6)} ELSE {})
 VariantStrings == {Tail6, Digits, <<7, 8, 3, 8, 6, 5>>}
+\* combining marks the shaper attaches by GPOS (non-zero glyph offsets) in the middle of a word: a q U+0303 b, g U+0308 x x,
+\* q U+0303 U+0308 A V, n U+0308 a.  (The driver skips a document whose font lacks one of the characters.)
+MarkStrings == {<<97, 113, 771, 98>>, <<103, 776, 120, 120>>, <<113, 771, 776, 65, 86>>, <<110, 776, 97>>}
 
 Init ==
   /\ ids = NewSubsetter /\ hist = <<>>
@@ -98,6 +104,11 @@ Init ==
                                   \cup {Doc(f, sub, z, r, <<Text(Digits, "H")>>) : f \in 1..2, sub \in BOOLEAN, z \in BOOLEAN, r \in 0..1}
                                   \cup {Doc(f, sub, TRUE, 0, <<Text(s, m)>>) : f \in 1..3, sub \in BOOLEAN, s \in EdgeStrings, m \in Modes}
                                   \cup {DocV(f, sub, TRUE, 0, v, <<Text(s, "H"), Text(Tail6, m)>>) : f \in 1..3, sub \in BOOLEAN, v \in 1..2, s \in VariantStrings, m \in {"H", "VN"}}
+                                  \* placement of spans: two-line texts (second line at y # 0), regular and faux italic
+                                  \cup {DocS(f, sub, TRUE, 0, 0, st, <<Text(s, "H2"), Text(Tail6, "H")>>) : f \in 1..3, sub \in BOOLEAN, st \in 0..1, s \in VariantStrings}
+                                  \cup {DocS(f, TRUE, TRUE, 0, v, 0, <<Text(s, "H2")>>) : f \in 1..3, v \in 1..2, s \in VariantStrings}
+                                  \* glyph offsets (mark attachment) followed by further glyphs
+                                  \cup {DocS(f, sub, TRUE, 0, 0, 0, <<RawText(s, "H")>>) : f \in 1..3, sub \in BOOLEAN, s \in MarkStrings}
        [] Gen = "wruns" ->  doc \in UNION {{Doc(f, sub, TRUE, 0, <<RawText(s, "H")>>) : sub \in BOOLEAN, s \in WRunStrings(f)} : f \in 1..3}
        [] Gen = "random" -> doc \in {DocV(f, sub, TRUE, r, v, <<Text(s, "H")>>) : f \in 1..3, sub \in BOOLEAN, r \in 0..1, v \in {0}, s \in RandomSubset(NRand, [1..StrLen -> 1..18])}
                                 \cup {DocV(f, sub, TRUE, 0, v, <<Text(s, "H")>>) : f \in 1..3, sub \in BOOLEAN, v \in 1..2, s \in RandomSubset(NRand \div 4 + 1, [1..StrLen -> 1..18])}
@@ -190,7 +201,8 @@ VerticalIdentityV(F, E) == E.vert <=> F.enc = "Identity-V"
 \* Size / unitsPerEm); the font size of the PDF text object is the face's size; and the PDF agrees with the layout on where
 \* the text ends: span width (micrometres) = (sum over the span's shown codes of W - TJ, in 1/1000 em) x Tf size.
 \* pen: per span the sum of (W - TJ) [(TJ - w1) for vertical glyphs] accumulated by Trace_FontEmbed over the GET events
-\* spans: <<[w, sum, um (span width in um), size (face size in um), tf (Tf operand in um), n (glyphs)]>>
+\* spans: <<[w, sum, um (span width in um), size (face size in um), tf (Tf operand in um), n (glyphs),
+\*           chk (horizontal, unrotated span whose text matrix could be read), tm, pm, sh, fox, foy]>>
 PenOf(F, E) == IF E.vert THEN E.adj - F.w1 ELSE WidthOf(F, E.code) - E.adj
 SpanAgreeDiag(D, pen) ==
   UNION {    (IF Abs(D.spans[i].tf - D.spans[i].size) <= 1 THEN {} ELSE {"pdf-font-size-differs-from-face-size"})
@@ -202,6 +214,21 @@ SpanAgreeDiag(D, pen) ==
 ProgramDiag(D, F) == IF F.ng >= 0 THEN {}
                      ELSE IF F.csok = 0 THEN {"embedded-cff-charstrings-offset-wrong:" \o Feat(D)}
                      ELSE {"embedded-font-unreadable:" \o Feat(D)}
+\* Where the text is: the text matrix of a span's text object (tm) against the matrix under which Text.RenderAsPath draws the
+\* same span's glyph path (pm).  Matrices are <<a, b, c, d, e, f>> (x' = a x + c y + e, y' = b x + d y + f) with the linear part in
+\* 1/10000 and the origin in micrometres.  The glyph path carries the face's faux-italic shear sh (1/10000) and the face's
+\* sub/superscript offset (fox, foy, micrometres) itself, the PDF has them in the text matrix:
+\*      tm = pm . Translate(fox, foy) . Shear(sh, 0)          (tolerance 3 units)
+K == 10000
+SpanPlacedDiag(D) ==
+  UNION {IF ~D.spans[i].chk THEN {}
+         ELSE LET t == D.spans[i].tm  p == D.spans[i].pm  sh == D.spans[i].sh
+                  ex == <<p[1], p[2], (p[1] * sh) \div K + p[3], (p[2] * sh) \div K + p[4],
+                         p[5] + (p[1] * D.spans[i].fox + p[3] * D.spans[i].foy) \div K,
+                         p[6] + (p[2] * D.spans[i].fox + p[4] * D.spans[i].foy) \div K>>
+              IN  (IF \A k \in 1..4 : Abs(t[k] - ex[k]) <= 3 THEN {} ELSE {"pdf-text-matrix-differs-from-path-rendering"})
+             \cup (IF \A k \in 5..6 : Abs(t[k] - ex[k]) <= 3 THEN {} ELSE {"pdf-span-origin-differs-from-path-rendering"})
+         : i \in 1..Len(D.spans)}
 DocDiag(D) ==
      UNION {IF RangesWellFormed(D.fonts[i]) THEN {} ELSE {"tounicode-range-crosses-byte"} : i \in 1..Len(D.fonts)}
   \cup UNION {ProgramDiag(D, D.fonts[i]) : i \in 1..Len(D.fonts)}
